@@ -55,6 +55,12 @@ func checkC10(tier string) int {
 		if i%4 == 3 {
 			params.Frankenstein = 1 // forced options (top 64 / min 500000) at block 1
 		}
+		if os.Getenv("VERIF_BVD") != "" || i%8 == 4 { // VERIF_BVD: triage aid (every history)
+			// the vote window of production chains (the only range the option validation admits): for the first
+			// thousand blocks nobody can be flagged for missed votes, but verdicts on allegations still freeze
+			params.BlockVotesDiff, params.MinVotesRequired = 1000, 700
+			r.Count("histories_with_a_vote_window_longer_than_the_run", 1)
+		}
 		cfg := drive.Cfg{Tag: "c10", Seed: hseed, Blocks: blocks, Params: params, Scripts: []string{"stakingb", "evidence", "transfers", "governance"}, Scout: true, Jumps: true, Absents: true, Evid: true, Honest: true}
 		if i%4 == 1 {
 			// the fork block forces new staking options (minimum 500 000, top count 64) at height 20, long
